@@ -79,7 +79,12 @@ def gen_seq(rng, base, allow_empty=False, small=False):
     n = rng.choice([1, 1, 2, 2, 2, 3, 3, 4, 5, 6, 8] if not small else [1, 2, 2, 3])
     if allow_empty and rng.random() < 0.12:
         n = 0
-    values = [base + rng.randint(1, 50) if rng.random() < 0.8 else base + 1 for _ in range(n)]
+    if rng.random() < 0.4:
+        # small alphabet (a relay: 2 values; a 3-level dimmer): repeated and already-current values are the norm
+        alphabet = [base + 1, base + 2] if rng.random() < 0.6 else [base + 1, base + 2, base + 3]
+        values = [rng.choice(alphabet) for _ in range(n)]
+    else:
+        values = [base + rng.randint(1, 50) if rng.random() < 0.8 else base + 1 for _ in range(n)]
     delays = [rng.choice(DELAYS) for _ in range(n)]
     if rng.random() < 0.12:
         delays = [0] * n
@@ -105,6 +110,9 @@ def gen_family(rng, per_base):
     r = rng.random()
     port = {'enabled': True, 'writable': True, 'expr': False}
     seq = gen_seq(rng, 0)
+    # what the read-back port shows before the first write: nothing, the first value of the sequence, or some other value
+    port['initial'] = rng.choice([None, seq['values'][0] if seq['values'] else 1, seq['values'][0] if seq['values'] else 2,
+                                  1, 2, rng.randint(1, 50)])
     if r < 0.06:
         port[rng.choice(['enabled', 'writable'])] = False
     elif r < 0.09:
@@ -155,7 +163,7 @@ def finish_scenario(rng, port, seq, cmd, horizon=None):
 def exhaustive_family(seq, cmd_kinds, newseq):
     """every instant of the grid x positions 0..3 x command kinds for one sequence"""
     out = []
-    port = {'enabled': True, 'writable': True, 'expr': False}
+    port = {'enabled': True, 'writable': True, 'expr': False, 'initial': seq['values'][0]}
     end, _ = layout(seq)
     for at in range(0, end + 3):
         for pos in (0, 1, 2, 3):
@@ -223,6 +231,15 @@ def integral(log):
         return False
 
 
+def missing_steps(sc, log):
+    """how many steps of the first sequence that were due strictly before the command / by the horizon were not submitted"""
+    cmd = sc['cmd']
+    limit = sc['horizon'] if cmd['kind'] == 'none' or cmd['at'] > sc['horizon'] else cmd['at'] - 1
+    due = firing_times(sc['seq']['values'], sc['seq']['delays'], sc['seq']['repeat'], 0, limit, 2000)
+    got = sum(1 for e in log if e[0] == 1 and e[2] < 100)
+    return max(0, len(due) - got)
+
+
 def classify(sc, obs):
     """key of a violation (what known_findings entries match on) + one-line description"""
     log = obs['log']
@@ -238,6 +255,11 @@ def classify(sc, obs):
             cmd['kind'] == 'seq' and len(cmd['values']) != len(cmd['delays'])):
         key['aspect'] = 'value of the old sequence submitted after the command'
         what = 'a value of the replaced/cancelled sequence was submitted after the %s command at %d ms' % (cmd['kind'], cmd['at'])
+    elif admitted(sc) and missing_steps(sc, log):
+        key['aspect'] = 'scheduled value not submitted'
+        what = ('the sequence values %s delays %s repeat %s (port showing %s) submitted only %s: %d scheduled step(s) missing'
+                % (sc['seq']['values'], sc['seq']['delays'], sc['seq']['repeat'], sc['port'].get('initial'),
+                   [[e[1], e[2]] for e in log if e[0] == 1 and e[2] < 100][:12], missing_steps(sc, log)))
     elif log and log[0][0] == 0 and (log[0][2] != 0) == admitted(sc):
         key['aspect'] = 'refusal'
         what = ('first request (port enabled=%s writable=%s expression=%s, %d values / %d delays) answered %s'
@@ -259,6 +281,15 @@ def admitted(sc):
             and len(sc['seq']['values']) == len(sc['seq']['delays']))
 
 
+EXPR_VALUES = (7777, 9999)
+
+
+def writes_ok(ob):
+    subs = [[e[1], e[2]] for e in ob['log'] if e[0] == 1]
+    writes = [[w[0], w[1]] for w in ob['writes'] if w[1] not in EXPR_VALUES]
+    return subs == writes
+
+
 def evaluate(ctx, res, scenarios, origin, stats):
     """run scenarios on the implementation, compare in Coq; fills res"""
     t0 = time.time()
@@ -275,6 +306,16 @@ def evaluate(ctx, res, scenarios, origin, stats):
             res['tie_failures'].append({'scenario': sc, 'note': n})
         ob['log'] = [[int(e[0]), int(e[1]), int(e[2]), e[3]] for e in ob['log']]
         usable.append((sc, ob))
+        # one driver write per submitted value, in order, at the instant of the submission (the harness driver confirms a
+        # write at once and the port stays enabled) — the FULL list of writes, not the list of value changes
+        if sc['cmd']['kind'] != 'disable' and not writes_ok(ob):
+            res['violations'].append({
+                'key': {'command': sc['cmd']['kind'], 'aspect': 'driver writes differ from submissions'},
+                'what': 'the driver was written %s but the sequence submitted %s (values %s delays %s repeat %s, port showed %s)'
+                        % ([w for w in ob['writes'] if w[1] not in EXPR_VALUES][:12], [[e[1], e[2]] for e in ob['log'] if e[0] == 1][:12],
+                           sc['seq']['values'], sc['seq']['delays'], sc['seq']['repeat'], sc['port'].get('initial')),
+                'case': sc, 'observed': {'log': ob['log'], 'driver_writes': ob['writes']},
+                'expected': 'one write_value call per submitted value, same order, same virtual ms'})
     if len(res['samples']) < 12:
         for sc, ob in usable[:: max(1, len(usable) // 6)][:6]:
             res['samples'].append({'origin': origin, 'scenario': sc, 'observed_log': ob['log'], 'driver_writes': ob['writes']})
@@ -340,10 +381,13 @@ def account(sc, ob, res, stats):
     inc('submissions observed', n_sub)
     if ob['log'] and any(e[0] == 4 for e in ob['log']):
         inc('command outcome:' + OUTCOMES.get(next(e[2] for e in ob['log'] if e[0] == 4), '?'))
-    subs = [e[2] for e in ob['log'] if e and e[0] == 1]
-    writes = [w[1] for w in ob['writes'] if w[1] not in (7777, 9999)]
-    if subs == writes:
-        inc('driver writes == submissions')
+    if writes_ok(ob):
+        inc('driver writes == submissions (time, value)')
+    vals = sc['seq']['values']
+    init = sc['port'].get('initial')
+    if adm and vals and (vals[0] == init or any(a == b for a, b in zip(vals, vals[1:]))
+                         or (len(vals) > 1 and sc['seq']['repeat'] != 1 and vals[0] == vals[-1]) or (len(vals) == 1 and sc['seq']['repeat'] != 1)):
+        inc('has a step equal to the value the port already shows')
     # non-trivial: accepted, >= 2 submissions expected, and (no command, or the command lands while the sequence is playing)
     if adm and len(times) >= 2 and (cmd['kind'] == 'none' or cmd['at'] <= times[-1] or sc['seq']['repeat'] <= 0):
         stats['distinct'].add(json.dumps(sc, sort_keys=True))
@@ -385,14 +429,13 @@ def run_all(ctx, res, n_total, rng):
     corpus = load_corpus()
     if corpus:
         evaluate(ctx, res, corpus, 'corpus', stats)
-    n_corpus_viol = len(res['violations'])
     scenarios = generated(ctx, n_total, rng)
     for i in range(0, len(scenarios), 8000):
         evaluate(ctx, res, scenarios[i:i + 8000], 'gen%d' % (i // 8000), stats)
-    # corpus witnesses first, then the simplest generated failing scenario
-    res['violations'][n_corpus_viol:] = sorted(
-        res['violations'][n_corpus_viol:],
-        key=lambda v: (v['case']['cmd']['kind'] != 'none', len(v['observed']['log']), len(v['case']['seq']['values'])))
+    # report the simplest failing scenario (no command, shortest log, fewest values) first: the replay is the smallest
+    # witness among the corpus and the generated families (each family covers one sequence with many commands)
+    res['violations'].sort(key=lambda v: (v['case']['cmd']['kind'] != 'none', len(v['observed']['log']),
+                                          len(v['case']['seq']['values']), v['case']['horizon']))
     res['distinct_nontrivial'] += len(stats.pop('distinct'))
     res['extra'].update({k: v for k, v in stats.items()})
     res['extra']['corpus_cases'] = len(corpus)
